@@ -89,6 +89,7 @@ inductive Res
   | none
   | ok (n : Nat)            -- value returned by the method (new length of the free state machine)
   | raised (id : Nat)       -- the exception instance raised by command `id` (repair D9)
+  | lowerVersion (v : Nat)  -- `Exception('wrong version, enabled version is …, requested version is v')` (repair D71)
 deriving DecidableEq, Repr, Inhabited
 
 inductive Fail | success | discarded | leaderChanged
@@ -268,6 +269,7 @@ def applyCmd (c : Config) (s : NodeState) (now : Nat) (e : Entry) : Option (Node
   | .noop => some (s, .none, [])
   | .version v =>
     if c.selfVer < v then none
+    else if v < s.enabledVer then some (s, .lowerVersion v, [])     -- D71: a lower version is refused, nothing is set
     else some ({ s with enabledVer := v }, .none, [.versionChanged s.enabledVer v])
   | .membership _ _ =>
     -- since repair D6 a membership entry is carried out when it is appended (after a restart: when the
